@@ -347,6 +347,10 @@ Proof.
   - inversion H; subst. apply Inv_fold_prune; assumption.
   - destruct (heartbeat P sc s obs fobs) as [[s1 c1]|] eqn:E; [|discriminate]. inversion H; subst. eapply Inv_heartbeat; eauto.
   - destruct (Z.ltb_spec d 0); [discriminate|]. inversion H; subst. apply Inv_set_time; [exact I|lia].
+  - destruct (aget t (mesh s)); [discriminate|]. destruct (fanout_pub P sc s t chosen) as [[s1 l1]|] eqn:E; [|discriminate].
+    inversion H; subst. unfold fanout_pub in E. destruct (aget_l t (fanout s)).
+    + destruct (pick_ok chosen _ (pD P)); [|discriminate]. inversion E; subst. frame I.
+    + destruct chosen; [|discriminate]. inversion E; subst. frame I.
 Qed.
 
 Lemma Inv_run P l : nonneg P -> forall s s' c, Inv P s -> run P s l = Some (s', c) -> Inv P s'.
